@@ -26,7 +26,7 @@ def run_one(entry, props, tier, seed):
     os.makedirs("/tmp/verif-mut", exist_ok=True)
     sh(["git", "-C", "/repo", "worktree", "remove", "--force", wt])
     shutil.rmtree(wt, ignore_errors=True)
-    r = sh(["git", "-C", "/repo", "worktree", "add", "--detach", wt, "HEAD"])
+    r = sh(["git", "-C", "/repo", "worktree", "add", "--detach", wt, entry.get("base", "HEAD")])
     res = {"name": name, "property": entry["property"], "results": {}}
     try:
         if r.returncode != 0:
@@ -81,7 +81,8 @@ def main(args):
             mp = os.path.join(d, n, "meta.json")
             if os.path.isfile(mp):
                 m = json.load(open(mp))
-                entries.append({"name": n, "property": m["property"], "patch": f"seeded/{n}/patch.diff", "what": m.get("summary", "")})
+                entries.append({"name": n, "property": m["property"], "patch": f"seeded/{n}/patch.diff", "what": m.get("summary", ""),
+                                **({"base": m["base"]} if "base" in m else {})})
         out_path = os.path.join(V, "seeded", "results.json")
     else:
         entries = json.load(open(os.path.join(V, "mutants", "index.json")))
@@ -100,6 +101,9 @@ def main(args):
         own = r["results"].get(e["property"], {})
         killed = own.get("rc") == 1
         others = [p for p, x in r["results"].items() if x.get("rc") == 1 and p != e["property"]]
+        if "base" in e:   # on the older base C03 also reports the defect repaired since (see meta.json base_note)
+            r["base"] = e["base"]
+            others = [p for p in others if p != "C03"]
         print(f"{'KILLED ' if killed else 'MISSED '} {e['name']:<48} {e['property']} rc={own.get('rc')} {','.join(own.get('oracles', []))}"
               + (f"  also: {','.join(others)}" if others else "") + (f"  ERROR {r['error']}" if "error" in r else ""), flush=True)
         r["killed"] = killed
